@@ -82,6 +82,13 @@ func enumerateCases(prop, tier string) []ProvCase {
 			}
 		}
 	}
+	if prop == "C19" || prop == "C12" {
+		for _, desired := range []int{3, 6} {
+			for _, k := range []int{0, 1} {
+				cases = append(cases, ProvCase{Kind: "replace", Desired: desired, Min: 0, K: k})
+			}
+		}
+	}
 	if prop == "C19" {
 		for _, desired := range []int{1, 2, 3, 5, 8} {
 			for min := 0; min <= desired; min++ {
